@@ -73,6 +73,10 @@ def rich_series(rnd, n, kind=None):
     if kind.startswith('dt_') or kind == 'dateobj':
         base = [pd.Timestamp('2000-02-29 12:34:56'), pd.Timestamp('1969-12-31 23:59:59'), pd.Timestamp('2038-01-19 03:14:08'),
                 pd.Timestamp('2020-01-01'), pd.Timestamp('2020-06-15 06:07:08.123456')]
+        # sub-second values: fractions whose decimal text is awkward in binary floating point, and random ones
+        for us in (249, 489, 1001, 999999, 1, 500000, rnd.randrange(10**6), rnd.randrange(10**6)):
+            base.append(pd.Timestamp(year=rnd.randint(1950, 2090), month=rnd.randint(1, 12), day=rnd.randint(1, 28),
+                                     hour=rnd.randint(0, 23), minute=rnd.randint(0, 59), second=rnd.randint(0, 59), microsecond=us))
         vals = mask([rnd.choice(base) for _ in range(n)], pd.NaT)
         if kind == 'dateobj':
             vv = [None if v is pd.NaT else v.date() for v in vals]
